@@ -1,8 +1,7 @@
 //! relay `graphql_syntax` trees -> `refgql` trees (plain transcription, no fix-ups).
 //!
-//! What relay's tree cannot represent is reported by [`RelayConv::unrepresented`] and erased from
-//! the reference side by `c29::erase_unrepresentable` (descriptions of anything but fields and
-//! directive definitions).
+//! What relay's tree cannot represent (descriptions of anything but fields and directive
+//! definitions) is erased from the reference side by [`erase_unrepresentable`].
 
 use graphql_syntax as gs;
 use intern::Lookup;
